@@ -757,12 +757,81 @@ func (c *codeGen) badJump() {
 	}
 }
 
+// precompileSnippet: a call of any kind to a standard precompile with a
+// meaningful or hostile input, output window possibly overlapping the input at
+// another offset, then the argument area is overwritten and the return data is
+// copied out and made observable (aliasing between input, output, return-data
+// buffer and memory shows up as a wrong stored word).
+func (c *codeGen) precompileSnippet() {
+	t := c.t()
+	g := c.g
+	idx := forkIndex(g.cfg.Fork)
+	p := g.pre[uniform(t, 0, len(g.pre)-1, "pcp")]
+	if chance(t, 40, "pcid") {
+		p = 4
+	}
+	inOff := uint64(pickInt(t, "pcin", 0, 0x20, 0x40, 0x100))
+	inLen := uint64(pickInt(t, "pcinlen", 0x20, 0x40, 0x60, 0x80, 0xc0, 1, 33))
+	// fill the input area with generated words (for 0x05 these are the length header)
+	for o := uint64(0); o < inLen && o < 0xc0; o += 0x20 {
+		w := genWord(t, "pcw")
+		if p == 5 && chance(t, 70, "pcsmall") {
+			w = uint256.NewInt(uint64(pickInt(t, "pclen", 0, 1, 2, 32, 33)))
+		}
+		c.a.Push(w).Push(inOff + o).Op(MSTORE)
+	}
+	outOff := inOff + uint64(pickInt(t, "pcout", 0x200, 1, 0x20, 0, 0x1f))
+	outLen := uint64(pickInt(t, "pcoutlen", 0x20, 0x40, 0, 0x21))
+	kinds := []byte{CALL, CALLCODE}
+	if idx >= 1 {
+		kinds = append(kinds, DELEGATECALL)
+	}
+	if idx >= 4 {
+		kinds = append(kinds, STATICCALL)
+	}
+	kind := kinds[uniform(t, 0, len(kinds)-1, "pckind")]
+	c.a.Push(outLen).Push(outOff).Push(inLen).Push(inOff)
+	if kind == CALL || kind == CALLCODE {
+		c.a.Push(0)
+	}
+	c.a.Push(p).Push(uint64(pickInt(t, "pcgas", 100000, 100000, 3000, 700, 100)))
+	c.a.Op(kind)
+	c.h++
+	// overwrite the argument area afterwards
+	if chance(t, 70, "pcscribble") {
+		c.a.Push(genWord(t, "pcsw")).Push(inOff + uint64(pickInt(t, "pcso", 0, 0x20, 1))).Op(MSTORE)
+	}
+	if g.tab[RETURNDATASIZE].Defined && chance(t, 80, "pcrd") {
+		dst := uint64(pickInt(t, "pcdst", 0x300, 0x320, 0x40))
+		c.a.Op(RETURNDATASIZE).Push(0).Push(dst).Op(RETURNDATACOPY)
+		c.a.Push(dst).Op(MLOAD).Push(g.storageKey("pcsk")).Op(SSTORE)
+	}
+	// what the out window received
+	c.a.Push(outOff).Op(MLOAD).Push(g.storageKey("pcsk2")).Op(SSTORE)
+	c.disposeResults(1)
+}
+
+// sstoreSeqSnippet: several stores to ONE key with values around its original
+// value (refund and net-metering branches: dirty update, clear, reset).
+func (c *codeGen) sstoreSeqSnippet() {
+	t := c.t()
+	key := uint64(uniform(t, 0, 5, "ssk"))
+	n := rapid.IntRange(2, 4).Draw(t, "ssn")
+	for i := 0; i < n; i++ {
+		c.a.Push(uint64(uniform(t, 0, 3, "ssv"))).Push(key).Op(SSTORE)
+	}
+}
+
 func (c *codeGen) snippet(allowLoop bool) {
 	t := c.t()
 	r := uniform(t, 0, 99, "snip")
 	switch {
-	case r < 55:
+	case r < 45:
 		c.micro()
+	case r < 50 && !c.g.cfg.Hermetic:
+		c.precompileSnippet()
+	case r < 55:
+		c.sstoreSeqSnippet()
 	case r < 72:
 		c.callSnippet()
 	case r < 80:
